@@ -23,6 +23,8 @@ FIRST = {
     "C20-C": "missed", "C20-D": "missed",
     "C18-C": "caught", "C18-D": "caught",
     "C14-C": "missed", "C14-D": "caught", "C16-C": "missed", "C16-D": "caught",
+    # fifth wave
+    "C10-E": "missed", "C10-F": "caught",
 }
 
 
